@@ -5,6 +5,8 @@ mod c10;
 mod c11;
 mod c17;
 mod c18;
+mod c30;
+mod c31;
 mod gens;
 mod lang;
 mod vrlrun;
@@ -25,6 +27,8 @@ pub fn exec(op: &str, inputs: &[String]) -> Option<Reply> {
         .or_else(|| arith::exec(op, inputs))
         .or_else(|| c10::exec(op, inputs))
         .or_else(|| c11::exec(op, inputs))
+        .or_else(|| c30::exec(op, inputs))
+        .or_else(|| c31::exec(op, inputs))
 }
 
 fn generate(prop: &str, sink: &mut sink::Sink, rng: &mut rng::Rng, n: u64) -> bool {
@@ -39,6 +43,8 @@ fn generate(prop: &str, sink: &mut sink::Sink, rng: &mut rng::Rng, n: u64) -> bo
         "C13" => lang::generate(sink, rng, n, false, Some("o.c13")),
         "C10" => c10::generate(sink, rng, n),
         "C11" => c11::generate(sink, rng, n),
+        "C30" => c30::generate(sink, rng, n),
+        "C31" => c31::generate(sink, rng, n),
         _ => return false,
     }
     true
